@@ -49,6 +49,14 @@ impl PlainYearMonth {
         duration: &Duration,
         overflow: ArithmeticOverflow,
     ) -> TemporalResult<Self> {
+        // A year-month counts whole years and months: week and day units are refused
+        // (AddDurationToYearMonth), they used to be added to the first of the month, so
+        // that subtracting one week from 2020-03 gave 2020-02.
+        if !duration.weeks().is_zero() || !duration.days().is_zero() {
+            return Err(TemporalError::range()
+                .with_message("Weeks and days are not allowed in this operation."));
+        }
+
         // Potential TODO: update to current Temporal specification
         let partial = PartialDate::try_from_year_month(self)?;
 
